@@ -332,3 +332,43 @@ def load_corpus(prop):
             if line:
                 out.append(json.loads(line))
     return out
+
+
+_any = {}
+
+
+def build_any():
+    """Build the `any` binary from /repo's working tree (no verification feature)."""
+    if "any" in _any:
+        return _any["any"]
+    t0 = time.time()
+    r = subprocess.run(["cargo", "build", "--offline", "--quiet", "-p", "anything", "--bin", "any"], cwd=REPO, env=ENV, capture_output=True, text=True)
+    if r.returncode != 0:
+        log(r.stderr[-4000:])
+        raise BuildError("the `any` binary does not build from /repo's working tree")
+    log("any build: %.1fs" % (time.time() - t0))
+    _any["any"] = os.path.join(TARGET, "debug", "any")
+    return _any["any"]
+
+
+def run_any(arg_lists, data_home=None, extra_env=None):
+    """Run the `any` binary once per argument list (in parallel); returns (stdout, stderr, returncode) triples."""
+    exe = build_any()
+    home = data_home or os.path.join(BUILD, "xdg")
+    os.makedirs(home, exist_ok=True)
+    env = dict(ENV, XDG_DATA_HOME=home, NO_COLOR="1", TERM="dumb", HOME=home)
+    if extra_env:
+        env.update(extra_env)
+    # make sure the on-disk index exists before running in parallel
+    subprocess.run([exe, "1"], env=env, capture_output=True, text=True)
+
+    def one(args):
+        r = subprocess.run([exe] + list(args), env=env, capture_output=True, text=True)
+        return r.stdout, r.stderr, r.returncode
+    with ThreadPoolExecutor(max_workers=JOBS) as ex:
+        return list(ex.map(one, arg_lists))
+
+
+def safe_text(codes):
+    """Characters of a list of code points, for diagnostics (non-characters are shown as '?')."""
+    return "".join(chr(c) if 0 <= c < 0x110000 and not (0xD800 <= c < 0xE000) else "?" for c in codes)
